@@ -21,9 +21,13 @@ import verilog_world as W
 import verilog_gen as G
 import verilog_oracles as O
 import verilog_mech as M
+import verilog_doc as D
+import verilog_wild as WILD
 
-OWN_COQ = ['Fmt/VBits.v', 'Fmt/VExpr.v', 'Fmt/VDoc.v', 'Fmt/VTop.v', 'Proofs/VerilogLists.v', 'Proofs/VerilogSlice.v',
-           'Proofs/VerilogGrow.v', 'Proofs/VerilogPort.v', 'Proofs/VerilogAssign.v', 'Proofs/VerilogTop.v', 'Props/C04.v', 'Props/C06.v', 'Extract/ExtractVerilog.v']
+OWN_COQ = ['Fmt/VBits.v', 'Fmt/VExpr.v', 'Fmt/VDoc.v', 'Fmt/VTop.v', 'Fmt/VElab.v', 'Fmt/VSpec.v', 'Fmt/VSem.v', 'Proofs/VerilogLists.v', 'Proofs/VerilogSlice.v',
+           'Proofs/VerilogGrow.v', 'Proofs/VerilogPort.v', 'Proofs/VerilogAssign.v', 'Proofs/VerilogTop.v', 'Proofs/VElabBase.v', 'Proofs/VElabInv.v',
+           'Proofs/VElabWf.v', 'Proofs/VElabExpr.v', 'Proofs/VElabConn.v', 'Proofs/VElabAssign.v', 'Proofs/VElabPorts.v', 'Proofs/VElabNets.v',
+           'Proofs/VElabTop.v', 'Proofs/VElabStable.v', 'Props/C04.v', 'Props/C06.v', 'Extract/ExtractVerilog.v']
 CORPUS = os.path.join(common.CORPUS, 'verilog')
 EXAMPLES = os.path.join(common.REPO, 'example_netlists', 'verilog_netlists')
 QUICK_FILES = ['4bitadder', 'TMR_hierarchy', 'adder', 'b13', 'basic_clock_crossing', 'carrychain', 'fourBitCounter',
@@ -34,6 +38,7 @@ BUDGET = {  # (mechanism cases, generated designs, port-level round trips)
     'C04': {'quick': (2500, 300, 400), 'thorough': (40000, 2500, 6000)},
     'C06': {'quick': (2500, 420, 0), 'thorough': (40000, 40000, 0)},
 }
+WILD_BUDGET = {'quick': 500, 'thorough': 12000}   # C06: documents outside the input class, model vs reader only
 OPTION_SETS = [{}, {'write_blackbox': False}, {'defparam': True}, {'definition_list': 'work-modules'}]
 
 
@@ -169,6 +174,9 @@ class Run:
         self.n_programs = 0
         self.reported = 0
         self.notes = []
+        self.docq = []          # document-level correspondence: (source, design, real outcome)
+        self.doc = {'compared': 0, 'disagreements': 0, 'unsupported': collections.Counter(), 'inexpressible': collections.Counter(),
+                    'outcomes': collections.Counter(), 'wild_mutations': collections.Counter()}
 
     # ---- reporting of oracle items
     def handle_items(self, source, items, payload, shrink=None):
@@ -211,7 +219,75 @@ class Run:
             return {'design': small, 'text': G.render(small, random.Random(noisy_seed), noisy=False)}
         if items:
             self.handle_items(source, items, {'property_clause': 'C06', 'design': design, 'text': text}, shrink)
+        self.doc_enqueue(source, design, text, n)
         return items, n, text
+
+    # ---- document-level correspondence: the design as a vdoc through the extracted elab, the text through sdn.parse
+    def doc_enqueue(self, source, design, text, netlist=None):
+        line, why = D.design_to_line(design)
+        if line is None:
+            self.doc['inexpressible'][why] += 1
+            return
+        real = D.real_outcome(text, netlist=netlist)
+        self.docq.append((source, design, line, real))
+        if len(self.docq) >= 2000:
+            self.doc_flush()
+
+    def doc_flush(self):
+        q, self.docq = self.docq, []
+        if not q:
+            return
+        answers = D.run_model([x[2] for x in q])
+        for (source, design, line, real), ans in zip(q, answers):
+            model = D.model_canon(ans)
+            if model[0] == 'unsupported':
+                self.doc['unsupported'][model[1]] += 1
+                continue
+            self.doc['compared'] += 1
+            self.doc['outcomes'][real[0] if real[0] == 'ok' else 'raises ' + str(real[1])] += 1
+            diff = D.compare(model, real)
+            if not diff:
+                continue
+            self.doc['disagreements'] += 1
+            if self.doc['disagreements'] > 4:
+                continue
+
+            def differs(d):
+                ln, _ = D.design_to_line(d)
+                if ln is None:
+                    return False
+                m = D.model_canon(D.run_model([ln])[0])
+                if m[0] == 'unsupported':
+                    return False
+                return bool(D.compare(m, D.real_outcome(G.render(d, random.Random('shrink'), noisy=False))))
+            try:
+                small = shrink_design(design, differs, budget=150)
+            except Exception:  # noqa
+                small = design
+            ln, _ = D.design_to_line(small)
+            m2 = D.model_canon(D.run_model([ln])[0])
+            t2 = G.render(small, random.Random('shrink'), noisy=False)
+            r2 = D.real_outcome(t2)
+            found = self.search_failure()
+            obj = {'kind': 'correspondence-broken', 'engine': 'verilog', 'level': 'document',
+                   'what': 'the extracted document-level reader model (coq/theories/Fmt/VElab.v elab; theorems C06_wf / C06_full_* of Props/C06.v) '
+                           'and VerilogParser.parse disagree on this document',
+                   'source': source, 'first_differences': D.compare(m2, r2) or diff, 'design': small, 'text': t2,
+                   'model': m2[1] if m2[0] != 'ok' else 'ok', 'implementation': r2[1] if r2[0] != 'ok' else 'ok',
+                   'replay': 'checks/run %s --replay <this file>' % self.prop}
+            if found:
+                obj['property_failure_found'] = found[0]
+            self.rep.violation('doc-%s' % common.sha(json.dumps(small, default=str)), obj, found_input=bool(found))
+
+    def run_wild(self, n):
+        for c in range(n):
+            rng = random.Random('%d/verilog-wild/%d' % (self.seed, c))
+            design, applied = WILD.wild_design(rng)
+            for a in applied:
+                self.doc['wild_mutations'][a] += 1
+            self.n_programs += 1
+            self.doc_enqueue('wild-%d' % c, design, G.render(design, random.Random('%d/wild-layout/%d' % (self.seed, c))))
+        self.doc_flush()
 
     # ---- C04 on one netlist
     def c04_netlist(self, source, make_netlist, describe, opts_list=None, transforms=('none',)):
@@ -240,6 +316,11 @@ class Run:
                 continue
             case = json.load(open(fn))
             if case.get('prop') != self.prop:
+                continue
+            if case.get('kind') == 'document':
+                # documents outside the input class (no `expected`): model of the reader vs the reader only
+                self.n_programs += 1
+                self.doc_enqueue('corpus-' + case['id'], case['design'], G.render(case['design'], random.Random('corpus')))
                 continue
             self.replay_case(case, 'corpus-' + case['id'])
 
@@ -390,17 +471,26 @@ def run(prop, tier, seed, replay):
         r.mech = {'cases': 0, 'note': 'driver not built'}
     r.run_files()
     r.run_generated(ndesign)
+    if prop == 'C06' and ok:
+        try:
+            r.doc_flush()
+            r.run_wild(WILD_BUDGET[tier])
+        except Exception:  # noqa
+            import traceback
+            r.rep.violation('doc-crash', {'kind': 'correspondence-broken', 'level': 'document',
+                                          'what': 'the document-level correspondence could not be carried out',
+                                          'traceback': traceback.format_exc()[-3000:]}, found_input=False)
     wall = time.time() - t0
     theorems = proof['theorems']
     coverage = {
         'obligations': len(theorems), 'discharged': len(theorems) if (ok and proof['ok']) else 0,
-        'checker_cmd': proof['cmd'] + '   (after compiling coq/theories/{%s})' % ','.join(OWN_COQ[:10]),
+        'checker_cmd': proof['cmd'] + '   (after compiling coq/theories/{%s})' % ','.join(x for x in OWN_COQ if not x.startswith('Props/') and not x.startswith('Extract/')),
         'trusted_base': [
             'Coq 8.16.1 kernel (coqc); vm_compute only inside Example witnesses; no axioms: every theorem of Props/%s.v prints "Closed under the global context"' % prop,
             'extraction: ExtrOcamlBasic only; nat/Z/positive extracted as inductives; ocaml/driver_verilog.ml (parsing/printing)',
-            'the models coq/theories/Fmt/VBits.v, VExpr.v are hand-written: tied to /repo only by the correspondence run counted below',
+            'the models coq/theories/Fmt/VBits.v, VExpr.v, VTop.v, VElab.v are hand-written: tied to /repo only by the correspondence runs counted below (mechanism level and document level)',
             'harness/verilog_gen.py (generator, independent writer, meaning of a design), harness/verilog_world.py (canonical description, WF), harness/verilog_oracles.py, harness/verilog_mech.py',
-            'character-level tokenisation (TokenFactory) and the document level (module table, top election, assigns, parameters, attributes, header aliases) are NOT modelled in Coq: checked on the implementation only by the oracles',
+            'character-level tokenisation (TokenFactory) and the recursive descent from tokens to the document value are NOT modelled in Coq: the generator produces the document value and its text together (harness/verilog_gen.py writer, harness/verilog_doc.py converter are trusted glue); the document-level WRITER is not modelled (C04: oracles on the implementation only)',
             'CPython 3.12 list/dict semantics',
         ],
         'theorems': theorems, 'print_assumptions': proof['assumptions'][-2500:],
@@ -409,6 +499,13 @@ def run(prop, tier, seed, replay):
         'rule': 'a generated design is non-trivial if its modules contain more than 3 body items; distinct by hash of the abstract design',
         'samples': r.samples or [{'note': 'no generated sample'}], 'exhaustive': False,
         'mechanism_correspondence': r.mech,
+        'document_correspondence': {
+            'what': 'every generated design and every corpus design (as a vdoc -> extracted VElab.elab) and %d wild documents '
+                    '(mutated outside the input class: re-declarations, selects out of range, duplicate names, aliases, stray defparams ...) '
+                    'vs sdn.parse of their text: canonical netlist values or exception classes compared' % (WILD_BUDGET[tier] if prop == 'C06' else 0),
+            'compared': r.doc['compared'], 'disagreements': r.doc['disagreements'],
+            'skipped_outside_modelled_subset': dict(r.doc['unsupported']), 'skipped_not_expressible_as_vdoc': dict(r.doc['inexpressible']),
+            'implementation_outcomes': dict(r.doc['outcomes']), 'wild_mutations_applied': dict(sorted(r.doc['wild_mutations'].items()))},
         'generator_feature_histogram': dict(sorted(r.feat.items())),
         'outcome_histogram': dict(sorted(r.stats.items())),
         'known_finding_hits': dict(r.known_hits), 'notes': r.notes,
@@ -416,12 +513,14 @@ def run(prop, tier, seed, replay):
     assumptions = [
         'inputs are in the property class: ranges msb>=lsb, module ports based at 0, expression width <= port width, nets selected inside their declared range',
         'cable names identify cables within a module (the writer compares names)',
-        'the whole-pipeline statements C04_full / C06_full are Definitions, not theorems (document level not modelled)',
+        'C04_full is a Definition, not a theorem (document-level writer not modelled); for C06 see the header of coq/theories/Props/C06.v for what is proved at document level',
     ]
     common.write_evidence(prop, tier, seed, coverage, wall, len(r.rep.violations), assumptions)
     print('%s %s: %d programs (%d distinct non-trivial designs), %d oracle evaluations, %d mechanism cases (%d disagreements), '
+          '%d documents through the reader model (%d disagreements, %d outside the modelled subset), '
           'known-finding hits %s, proof %s (%d theorems), %.1fs' % (
               prop, tier, r.n_programs, len(r.distinct), r.n_eval, r.mech.get('cases', 0), r.mech.get('disagreements', 0),
+              r.doc['compared'], r.doc['disagreements'], sum(r.doc['unsupported'].values()),
               dict(r.known_hits), 'ok' if (ok and proof['ok']) else 'BROKEN', len(theorems), wall))
     return r.rep.exit_code()
 
@@ -435,7 +534,9 @@ def replay_file(prop, path, seed):
         print('model          :', M.run_model([cmd])[0])
         print('recorded impl  :', obj['first_difference']['impl'])
         return 1
-    if 'design' in obj:
+    if obj.get('level') == 'document' and 'design' in obj:
+        r.doc_enqueue('replay', obj['design'], obj.get('text') or G.render(obj['design'], random.Random('shrink'), noisy=False))
+    elif 'design' in obj:
         r.replay_case({'design': obj['design'], 'id': os.path.basename(path), 'prop': prop, 'transform': obj.get('transform')}, 'replay')
     elif 'file' in obj:
         if prop == 'C06':
@@ -444,7 +545,10 @@ def replay_file(prop, path, seed):
         else:
             r.c04_netlist('replay', lambda: O.parse_file(obj['file']), {'file': obj['file']}, [obj.get('options') or {}],
                           (obj.get('transform') or 'none',))
-    print(json.dumps({'violations': r.rep.violations, 'known': dict(r.known_hits)}, indent=1))
+    if prop == 'C06':
+        r.doc_flush()
+    print(json.dumps({'violations': r.rep.violations, 'known': dict(r.known_hits), 'document_correspondence': {
+        'compared': r.doc['compared'], 'disagreements': r.doc['disagreements'], 'unsupported': dict(r.doc['unsupported'])}}, indent=1))
     return r.rep.exit_code()
 
 
